@@ -17,7 +17,6 @@ from vlib.device import BOOT, SIGNER
 from vlib.genuine import Genuine
 from vlib.refs import ALL_PATHS
 
-import admin.certificate_v2 as cv2
 import admin.dongle_admin as da
 import admin.onboard as onboard
 import admin.ledger_attestation as latt
@@ -30,7 +29,6 @@ import admin.verify_sgx_attestation as vsa
 from admin.certificate import HSMCertificate
 from comm.platform import Platform
 
-cv2.datetime = certs.FakeDatetime
 for _m in (onboard, latt, pubkeys, misc):
     _m.wait_for_reconnection = lambda: None
 
@@ -82,8 +80,8 @@ def cases(draw, tier):
          "pin": "".join(draw(st.lists(st.sampled_from(PINCH), min_size=7, max_size=7))) + "a",
          "sgx_root": draw(st.integers(0, 2 ** 64)), "leaf": draw(st.integers(0, 2 ** 64)),
          "inter": draw(st.integers(0, 2 ** 64)),
-         "auth": draw(st.one_of(st.binary(min_size=1, max_size=40),
-                                st.binary(min_size=1, max_size=1000))),
+         "auth": draw(st.one_of(st.binary(min_size=0, max_size=40), st.just(b""),
+                                st.binary(min_size=0, max_size=1000))),
          "third_cert": draw(st.booleans()), "alter": None,
          "refresh": None}
     if plat == "ledger" and draw(st.integers(0, 2)) == 0:
